@@ -388,6 +388,7 @@ pub const FAULT_KINDS: &[&str] = &[
     "syntax_stmt",
     "syntax_var",
     "syntax_long_string",
+    "unimplemented_capability",
     "struct_dup_elem",
     "subrange_order",
     "enum_dup_value",
@@ -482,6 +483,18 @@ pub fn gen_faulty(rng: &mut Rng, size: usize, kind: &str) -> World {
             push(
                 &mut decls,
                 decl("fault", &format!("Fb{k}"), format!("FUNCTION_BLOCK Fb{k}\n  VAR\n    name : STRING;\n  END_VAR\n  name := 'a' '{lit}';\nEND_FUNCTION_BLOCK\n")),
+            );
+        }
+        "unimplemented_capability" => {
+            // legal but rare text that the analyzer answers with "capability is not implemented"
+            let body = *rng.pick(&["  arr[1] := 2;", "  p.px := 1;"]);
+            push(
+                &mut decls,
+                decl(
+                    "fault",
+                    &format!("Fb{k}"),
+                    format!("TYPE\n  Pt{k} : STRUCT\n    px : INT;\n  END_STRUCT;\nEND_TYPE\nFUNCTION_BLOCK Fb{k}\n  VAR\n    arr : ARRAY [1..3] OF INT;\n    p : Pt{k};\n  END_VAR\n{body}\nEND_FUNCTION_BLOCK\n"),
+                ),
             );
         }
         "struct_dup_elem" => push(
